@@ -227,35 +227,16 @@ example : (cacheGet (run (init.enable true) exStream).1.net.cache 0x123 ANY_SUBN
 
 example : mergeRows [[0], [1], [2]] [(1, [7]), (2, [8]), (1, [9])] = [[0], [9], [8]] := by decide
 
-/-- OPEN: `interleaved_page_roundtrip` - the same with packets of OTHER magazines interleaved anywhere
-between P's header and the terminating header.  Needs `magazine_isolation` (a foreign packet leaves slot `m`
-alone), which is FALSE without exceptions on the model and on packet.c: (E1) a foreign header with an
-uncorrectable page number and (E2) a foreign X/26 on a page with function (G)DRCS/BTT/AIT/MPT/MPT-EX call
-`vbi_teletext_desync` for all magazines, (E3) a foreign page whose header fails the rolling-header test
-empties the cache, (E4) a foreign header carrying C11 sends the next termination to the wrong slot.
-Stated for foreign packets that avoid E1-E4 (`calm`). -/
-def interleaved_page_roundtrip_full : Prop :=
-  ∀ (s : St) (t : Tx) (hdr hq : Packet) (items : List (Bool × RowPkt)) (s1 : St) (ev1 : List Event),
-    s.raw.length = 8 → s.mask = true → s.chswcd = 0 →
-    IsHeader hdr t.m t.page t.s12 t.s34 t.fl → decimalPage t.page →
-    (t.s12 < 256 ∧ t.s34 < 256 ∧ t.fl < 256) → t.fl &&& 0x10 = 0 →
-    terminatePage (tick s) t.m t.pgno t.page = (s1, ev1) →
-    TextPage s1.net t.pgno t.page (t.prev s1) → (s1.rp t.m).lopRaw.length = 26 →
-    -- own rows (true) and foreign packets (false: any packet of another magazine)
-    (∀ x ∈ items, if x.1 then IsPacket x.2.2 t.m x.2.1 ∧ 1 ≤ x.2.1 ∧ x.2.1 ≤ 25 ∧ GoodRow (payload x.2.2)
-                  else ∃ m' k, m' ≠ t.m ∧ IsPacket x.2.2 m' k) →
-    Terminator (run s (hdr :: items.map (·.2.2))).1 t.m t.page hq →
-    -- E1-E4 did not happen: no desync of slot m, no channel switch, last header parallel
-    (∀ pre, pre <+: items.map (·.2.2) → ((run s (hdr :: pre)).1.rp t.m).page.function = FN_LOP) →
-    ParallelCur (run s (hdr :: items.map (·.2.2))).1 →
-    Event.chsw ∉ (run s (hdr :: items.map (·.2.2) ++ [hq])).2 →
-    ∃ q pt, Fetched q t s1 hdr (rowsOf ((items.filter (·.1)).map (·.2))) pt ∧
-      ∀ subno mask, subno = q.subno ∨ subno = ANY_SUBNO →
-        (cacheGet (run s (hdr :: items.map (·.2.2) ++ [hq])).1.net.cache t.pgno subno mask).map (·.1) = some q
+/-! `interleaved_page_roundtrip` (packets of OTHER magazines interleaved anywhere between P's header and the terminating
+header) is proved in `Props/C02Interleave.lean`: `magazine_isolation` is FALSE without exceptions on the model and on
+packet.c - (E1) a foreign header with an uncorrectable page number and (E2) a foreign X/26 on a page with function
+(G)DRCS/BTT/AIT/MPT/MPT-EX call `vbi_teletext_desync` for all magazines, (E3) a foreign page whose header fails the
+rolling-header test empties the cache, (E4) a foreign header carrying C11 sends the next termination to the wrong slot -
+so the theorem is stated for foreign packets that are `Ttx.Benign` (exactly E1-E4 excluded, each proved real there). -/
 
-/-- OPEN: serial mode (C11 set): the page is terminated by the next header of ANY magazine with another
-page number (or with the erase flag, commit 53b7b09).  Same conclusion as `single_page_roundtrip`; the
-terminating header may belong to another magazine. -/
+/-- Serial mode (C11 set): the page is terminated by the next header of ANY magazine with another page number
+(commit 53b7b09: also when the page carries the erase flag).  Same conclusion as `single_page_roundtrip`; the
+terminating header may belong to another magazine.  PROVED: `Props/C02Serial.lean`, `page_roundtrip_serial`. -/
 def page_roundtrip_serial_full : Prop :=
   ∀ (s : St) (t : Tx) (hdr hq : Packet) (rp : List RowPkt) (s1 : St) (ev1 : List Event) (u : Tx),
     s.raw.length = 8 → s.mask = true → s.chswcd = 0 →
